@@ -121,9 +121,20 @@ def c02(tier, seed):
         res.absorb(run_engine(dbg, "reclaim", n(1000000), seed, {"mode": "diff"}, build_name="dbg"))
         res.absorb(run_engine(asan, "reclaim", n(200000), seed + 1, {"mode": "asan"}, build_name="asan"))
         res.absorb(run_engine(asan, "reclaim", n(200000), seed + 2, {"mode": "asan", "quarantine": 1}, build_name="asan-quarantine"))
+    # (d) process results as program data: the C16 scripts (captured output bound to a local, returned,
+    # pushed into an outer array from a loop body, read after unrelated string work) on the ASan build
+    import shutil
+    import tempfile
+    d = tempfile.mkdtemp(prefix="c02-proc-", dir=os.path.join(common.VERIF, "run"))
+    try:
+        vh = common.vhelper("dbg")
+        res.absorb(run_engine(asan, "proccap", n(160 if tier == "quick" else 4000), seed + 3, {"vhelper": vh, "scratch": d, "stage": "random"},
+                              nshards=min(8, common.NCPU), build_name="asan-process-results", timeout_case=90))
+    finally:
+        shutil.rmtree(d, ignore_errors=True)
     triage(res)
     return finish("C02", tier, seed, "exploration", res,
-                  "mem-biased generated programs (run-time strings with lengths straddling the pool size classes, stored/overwritten in loops, passed, returned, captured; arrays of strings crossing frame resets) executed three ways: (a) debug build, reclamation on vs off on the same AST, outputs and ending compared bytewise (freed memory is filled with 0xDD/0xCD there); (b) AddressSanitizer build in which the arena and pool hooks poison every byte that is not handed out, so a read or write of reclaimed memory traps at the instruction; (c) as (b) with quarantine: reclaimed memory is never re-issued, which also catches free -> re-issue -> stale read. Non-trivial = at least one frame reset, one pool slot returned and (outside quarantine) one slot re-issued from the free list in a program that builds strings at run time; distinct = hash of the source text",
+                  "mem-biased generated programs (run-time strings with lengths straddling the pool size classes, stored/overwritten in loops, passed, returned, captured; arrays of strings crossing frame resets) executed three ways: (a) debug build, reclamation on vs off on the same AST, outputs and ending compared bytewise (freed memory is filled with 0xDD/0xCD there); (b) AddressSanitizer build in which the arena and pool hooks poison every byte that is not handed out, so a read or write of reclaimed memory traps at the instruction; (c) as (b) with quarantine: reclaimed memory is never re-issued, which also catches free -> re-issue -> stale read; (d) the child-process scripts of C16 (engine proccap, random stage: captured output of up to 70 kB bound to a local, returned from a function, extracted into an array, pushed into an outer array from a loop body, read after unrelated string work) on the AddressSanitizer build. Non-trivial = at least one frame reset, one pool slot returned and (outside quarantine) one slot re-issued from the free list in a program that builds strings at run time; distinct = hash of the source text",
                   ["both sides of (a) are the same interpreter, so the oracle needs no model; the model is only used to discard non-terminating or oversized programs",
                    "std is not instrumented in the ASan build (no build-std): a stale read that happens only inside precompiled core::fmt is seen through the intercepted memcpy/memcmp or by (a)",
                    "ASAN_OPTIONS=detect_stack_use_after_return=0 (the interpreter's own stack probe needs real stack addresses), detect_leaks=0 (arenas never free)",
